@@ -20,7 +20,7 @@ from hashlib import md5
 from zope.interface import Interface, implementer
 
 from twisted.cred import error
-from twisted.cred._digest import calcHA1, calcHA2, calcResponse
+from twisted.cred._digest import algorithms, calcHA1, calcHA2, calcResponse
 from twisted.python.compat import nativeString, networkString
 from twisted.python.deprecate import deprecatedModuleAttribute
 from twisted.python.randbytes import secureRandom
@@ -316,7 +316,10 @@ class DigestCredentialFactory:
             clientip = clientip.encode("ascii")
 
         # Verify the key
-        key = base64.b64decode(opaqueParts[1])
+        try:
+            key = base64.b64decode(opaqueParts[1])
+        except ValueError:
+            raise error.LoginFailed("Invalid response, invalid opaque value")
         keyParts = key.split(b",")
 
         if len(keyParts) != 3:
@@ -377,7 +380,10 @@ class DigestCredentialFactory:
         auth = {}
         for key, bare, quoted in parts:
             value = (quoted or bare).strip()
-            auth[nativeString(key.strip())] = value
+            try:
+                auth[nativeString(key.strip())] = value
+            except UnicodeError:
+                raise error.LoginFailed("Invalid response, invalid parameter name.")
 
         username = auth.get("username")
         if not username:
@@ -388,6 +394,16 @@ class DigestCredentialFactory:
 
         if "nonce" not in auth:
             raise error.LoginFailed("Invalid response, no nonce given.")
+
+        # The response hash cannot be computed without these; refuse now
+        # rather than fail with some other exception in checkPassword().
+        algorithm = auth.get("algorithm", b"md5").lower()
+        if algorithm not in algorithms:
+            raise error.LoginFailed("Invalid response, unsupported algorithm.")
+        if "uri" not in auth:
+            raise error.LoginFailed("Invalid response, no uri given.")
+        if algorithm.endswith(b"-sess") and "cnonce" not in auth:
+            raise error.LoginFailed("Invalid response, no cnonce given.")
 
         # Now verify the nonce/opaque values for this client
         if self._verifyOpaque(auth.get("opaque"), auth.get("nonce"), host):
